@@ -210,6 +210,8 @@ class EaDiagnostics:
         ):
             if len(parent_indices) == 0:
                 continue
+            if any(population[p].fitness is None for p in parent_indices):
+                continue  # parents without a fitness cannot be compared
             beneficial_var[i] = all(
                 child.fitness < population[p].fitness for p in parent_indices
             )
